@@ -13,6 +13,14 @@ class Labwares(str, enum.Enum):
 
     SystemLiquid = "Systemliquid"
 
+    def __str__(self) -> str:
+        # Since Python 3.11 a str-mixin Enum formats as "Labwares.SystemLiquid";
+        # worklist records must carry the labware identifier itself.
+        return str(self.value)
+
+    def __format__(self, format_spec: str) -> str:
+        return format(str(self.value), format_spec)
+
 
 class Tip(enum.IntEnum):
     """Enumeration of LiHa tip IDs."""
